@@ -1,13 +1,13 @@
 (* C09 - the COUNTER LEDGER of an asyncfix endpoint across restarts: executable model.
 
    What is modelled (asyncfix/connection.py, journaler.py, session.py), line by line including the
-   defects D11 / D14 / D20 of DESIGN.md section 7:
+   defects D11 / D20 of DESIGN.md section 7:
      live counters next_num_in / next_num_out, connection state class, role, _max_seq_num_resend;
      the journal of ONE session as a projection of Fix/Journal.v (stored counters, inbound keys,
      outbound rows; committed / current tables; implicit transaction, commit; the SQL statements of
      persist_msg and set_seq_num in the order the code issues them; a failing INSERT leaves the
      tables unchanged);
-     send_msg (state gates, number selection of the codec, write, drain, journal write AFTER the write),
+     send_msg (state gates, number selection of the codec, journal write, THEN write and drain),
      _process_message (_validate_integrity, first-message rule, _process_logon / _seqreset / _logout,
      _check_seqnum_gaps, dispatch, except-swallow, finally _finalize_message), _process_resend
      (replay / gap-fill loop; since the repair of D12 it writes neither journal nor counters, and send_msg does
@@ -232,8 +232,10 @@ Definition send_msg (m : frame) : M unit :=
      if mtype_eqb (f_type m) TLogon || mtype_eqb (f_type m) TLogout
      then set_st LogonSent ;;; set_rl Initiator
      else raise XConn
-   else if role_eqb (rl w) Initiator && cstate_eqb (st w) LogonSent && negb (mtype_eqb (f_type m) TLogout)
-     then raise XConn
+   else if role_eqb (rl w) Initiator then
+     (if cstate_eqb (st w) LogonSent && negb (mtype_eqb (f_type m) TLogout) then raise XConn else ret tt)
+   else if cstate_eqb (st w) LogonRecv && negb (mtype_eqb (f_type m) TLogon) && negb (mtype_eqb (f_type m) TLogout)
+     then raise XConn           (* the acceptor has not replied to the Logon yet *)
    else ret tt) ;;;
   (* TestRequest gate: _test_req_id is None *)
   (if mtype_eqb (f_type m) TTest then raise XConn else ret tt) ;;;
@@ -242,10 +244,11 @@ Definition send_msg (m : frame) : M unit :=
   n <- (if mtype_eqb (f_type m) TSeqReset || f_pd m then ret (f_seq m)
         else set_nout (nout w + 1) ;;; ret (nout w)) ;;
   let f := mkF (f_type m) n (f_pd m) (f_a m) (f_b m) in
+  (* journal first: a number that reached the wire is never allocated again; replies to a ResendRequest
+     (PossDup copies, gap fills) are not journaled: the journal keeps the originals *)
+  (if unjournaled m then ret tt else persist_out f) ;;;
   emit [EWrite f] ;;;
-  emit [EDrain] ;;;
-  (* replies to a ResendRequest (PossDup copies, gap fills) are not journaled: the journal keeps the originals *)
-  if unjournaled m then ret tt else persist_out f.
+  emit [EDrain].
 
 (* disconnect(state <= BROKEN, logout_message = None | text) *)
 Definition disconnect (with_logout : bool) : M unit :=
@@ -358,6 +361,9 @@ Definition pm_head (f : frame) : M (option bool) :=
   first_ok <- (if cstate_eqb (st w) NCE then
                  if mtype_eqb (f_type f) TLogon then set_st LogonRecv ;;; set_rl Acceptor ;;; ret true
                  else disconnect false ;;; ret false
+               else if (cstate_eqb (st w) LogonSent || cstate_eqb (st w) LogonRecv)
+                       && negb (mtype_eqb (f_type f) TLogon) && negb (mtype_eqb (f_type f) TLogout)
+               then disconnect false ;;; ret false     (* the Logon exchange has not completed *)
                else ret true) ;;
   if negb first_ok then ret None
   else
